@@ -343,6 +343,53 @@ edits["R28-derefptr-for-condition"] = [("misc.go", """	for {
 		t = t.Elem()
 		v = v.Elem()
 	}""")]
+
+edits["R29-caplenequal-one-expression"] = [("misc.go", """	if c1 != 0 || c2 != 0 {
+		return c1 == c2 && l1 == l2
+	}
+	return l1 == l2
+}""", """	return c1 == c2 && l1 == l2
+}""")]
+edits["R30-valid-guard-clauses"] = [("stack.go", """	if r.isInit() {
+		// try to see if the user provided a
+		// validity function
+		stk := Stack{r}
+		if meth := stk.getValidityPolicy(); meth != nil {
+			if err := meth(r); err != nil {
+				return
+			}
+		}
+		is = true
+	}
+
+	return
+}""", """	if !r.isInit() {
+		return false
+	}
+	// try to see if the user provided a
+	// validity function
+	if meth := (Stack{r}).getValidityPolicy(); meth != nil && meth(r) != nil {
+		return false
+	}
+
+	return true
+}""")]
+edits["R31-pop-fifo-one-append"] = [("stack.go", """		idx = 1
+		slice = (*r)[idx]
+		pres := (*r)[idx+1:]
+		(*r) = (*r)[:idx]
+		*r = append(*r, pres...)""", """		idx = 1
+		slice = (*r)[idx]
+		*r = append((*r)[:idx], (*r)[idx+1:]...)""")]
+edits["R32-isnumberprimitive-reflect-free-reorder"] = [("misc.go", """	case int, int8, int16, int32, int64,
+		float32, float64, complex64, complex128,
+		uint, uint8, uint16, uint32, uint64:
+		return true""", """	case int, int8, int16, int32, int64:
+		return true
+	case uint, uint8, uint16, uint32, uint64:
+		return true
+	case float32, float64, complex64, complex128:
+		return true""")]
 name = sys.argv[1]
 os.makedirs("/var/tmp/rfgen", exist_ok=True)
 A, B = "/var/tmp/rfgen/a", "/var/tmp/rfgen/b"
